@@ -226,12 +226,8 @@ def composeBackLoop (prev pm : List Int) (realInlen inputLen outLen : Nat) :
       else composeBackLoop prev pm realInlen inputLen outLen fuel (k + 1) (pm.getD pk.toNat 0 :: acc) inlen
     else ((((outLen : Int) :: acc).reverse), k)
 
-def backStep (e : Engine) (ini : EngInit) (maxlen : Nat) (s : BackState) (passNo : Nat) : BackState :=
-  if s.failed then s else
-  let input := if s.first then s.input else s.output
-  let pin : PassIn := { passNo := passNo, chars := input, maxlen := maxlen, cpos := s.cpos, cstat := s.cstat }
-  let po := e ini s.hist pin
-  if !po.ok then { s with failed := true } else
+/-- the bookkeeping after a successful backward pass (lou_backTranslateString.c:274-307) -/
+def backStepOk (s : BackState) (input : List Nat) (pin : PassIn) (po : PassOut) : BackState :=
   -- passPosMapping[realInlen] = output.length
   let pm := po.map.take po.realInlen ++ [(po.out.length : Int)]
   if s.first then
@@ -239,10 +235,16 @@ def backStep (e : Engine) (ini : EngInit) (maxlen : Nat) (s : BackState) (passNo
       inlen := if po.realInlen < input.length then po.realInlen else s.inlen,
       cpos := po.cpos, cstat := po.cstat, hist := s.hist ++ [(pin, po)], first := false, failed := false }
   else
-    let (composed, inlen') :=
-      composeBackLoop s.posMapping pm po.realInlen input.length po.out.length (s.inlen.toNat + 1) 0 [] s.inlen
-    { input := input, posMapping := composed, output := po.out, inlen := inlen',
+    let r := composeBackLoop s.posMapping pm po.realInlen input.length po.out.length (s.inlen.toNat + 1) 0 [] s.inlen
+    { input := input, posMapping := r.1, output := po.out, inlen := r.2,
       cpos := po.cpos, cstat := po.cstat, hist := s.hist ++ [(pin, po)], first := false, failed := false }
+
+def backStep (e : Engine) (ini : EngInit) (maxlen : Nat) (s : BackState) (passNo : Nat) : BackState :=
+  if s.failed then s else
+  let input := if s.first then s.input else s.output
+  let pin : PassIn := { passNo := passNo, chars := input, maxlen := maxlen, cpos := s.cpos, cstat := s.cstat }
+  let po := e ini s.hist pin
+  if !po.ok then { s with failed := true } else backStepOk s input pin po
 
 /-- the pass loop of `_lou_backTranslate` -/
 def backRun (t : TableInfo) (dotsFor : Nat → Nat) (e : Engine) (a : Args) : BackState :=
